@@ -27,6 +27,10 @@ theorem feq_zero' (x : ℝ) : Num.feq x (0 : ℝ) = true ↔ x = 0 := by
 theorem feq_zero_num (x : ℝ) : Num.feq x (@OfNat.ofNat ℝ 0 (Num.instOfNat 0)) = true ↔ x = 0 := by
   rw [RealNum.feq_eq, RealNum.ofNat_eq, Nat.cast_zero]
 
+/-- the kernels' integer literals `0` and `1` at ℝ -/
+theorem num_zero : (@OfNat.ofNat ℝ 0 (Num.instOfNat 0)) = 0 := (RealNum.ofNat_eq 0).trans Nat.cast_zero
+theorem num_one : (@OfNat.ofNat ℝ 1 (Num.instOfNat 1)) = 1 := (RealNum.ofNat_eq 1).trans Nat.cast_one
+
 /-- the literal `0.0` of the kernels at ℝ -/
 theorem sci_zero : (@OfScientific.ofScientific ℝ Num.toOfScientific 0 true 1) = 0 := by norm_num
 
